@@ -1,5 +1,6 @@
 import YtkModel.Wire
 import YtkModel.Merge
+import YtkDriver.HeapWire
 open Lean
 
 namespace Ytk.C04
@@ -42,6 +43,19 @@ def handle : Wire.Handler := fun op a => do
     let x ← Wire.getNode a "a"
     let y ← Wire.getNode a "b"
     pure (Wire.nodeToJson (coalesce x y))
+  | "heapMerge" =>
+    -- explicit heap + the two root addresses: Merge at pointer level (YtkModel/Heap.lean)
+    let h ← HeapWire.getHeap a
+    let x ← Wire.getNat a "a"
+    let y ← Wire.getNat a "b"
+    let o ← HeapWire.getOpt a
+    HeapWire.result a h [x, y] (Heap.mergeContainers o h x y) [("writes", "afterWrites")] true
+  | "heapMergeAll" =>
+    -- OverlayDocument.Merged: fold over the layer roots from a new empty container
+    let h ← HeapWire.getHeap a
+    let ls ← HeapWire.getAddrs a "layers"
+    let o ← HeapWire.getOpt a
+    HeapWire.result a h ls (Heap.mergeAll o h ls) [("writes", "afterWrites")] true
   | _ => throw s!"C04: unknown op {op}"
 
 end Ytk.C04
